@@ -201,47 +201,44 @@ def grads_differ(ga, gb, tol: float, names=None, floor_mult: float = 64.0):
 
 
 # ----------------------------------------------------------------------------- call forms
-def positional_call(f: Callable, args: tuple, kwargs: Dict[str, Any]) -> Any:
-    """f(*args, **kwargs) re-spelled with every positional-or-keyword argument up to the last one given passed BY POSITION
-    (defaults fill the gaps). Keyword-only / **kwargs parameters stay keywords. The documented parameter order is part of a
-    public signature: a reordering or a positional/keyword mix-up inside a wrapper only shows in this spelling."""
+def positional_call(f: Callable, args: tuple, kwargs: Dict[str, Any], order: Optional[List[str]] = None) -> Any:
+    """f(*args, **kwargs) re-spelled with every argument up to the last one given passed BY POSITION, following the DOCUMENTED
+    parameter order `order` (vmon/api_orders.py; defaults of skipped parameters are read from the function's own signature by
+    NAME). The documented order is part of a public signature: a reordering, or a positional/keyword mix-up inside a wrapper, only
+    shows in this spelling. Arguments not named in `order` stay keywords."""
     import inspect
 
-    try:
-        sig = inspect.signature(f)
-        ba = sig.bind(*args, **kwargs)
-    except (TypeError, ValueError):
+    if order is None:
         return f(*args, **kwargs)
-    given = set(ba.arguments)
-    ba.apply_defaults()
-    pos, kw, last = [], {}, -1
-    params = list(sig.parameters.values())
-    for i, p in enumerate(params):
-        if p.kind in (p.POSITIONAL_ONLY, p.POSITIONAL_OR_KEYWORD) and p.name in given:
-            last = i
-    for i, p in enumerate(params):
-        if p.kind in (p.POSITIONAL_ONLY, p.POSITIONAL_OR_KEYWORD):
-            if i <= last:
-                pos.append(ba.arguments[p.name])
-        elif p.kind == p.VAR_POSITIONAL:
-            if i <= last or ba.arguments.get(p.name):
-                pos.extend(ba.arguments.get(p.name, ()))
-        elif p.kind == p.KEYWORD_ONLY:
-            if p.name in given:
-                kw[p.name] = ba.arguments[p.name]
-        elif p.kind == p.VAR_KEYWORD:
-            kw.update(ba.arguments.get(p.name, {}))
-    return f(*pos, **kw)
+    sig = inspect.signature(f)
+    defaults = {p.name: p.default for p in sig.parameters.values() if p.default is not inspect.Parameter.empty}
+    given = dict(zip(order, args))
+    extra_kw = {}
+    for k, v in kwargs.items():
+        if k in order:
+            given[k] = v
+        else:
+            extra_kw[k] = v
+    last = max((order.index(k) for k in given), default=-1)
+    pos = []
+    for name in order[: last + 1]:
+        if name in given:
+            pos.append(given[name])
+        elif name in defaults:
+            pos.append(defaults[name])
+        else:
+            return f(*args, **kwargs)  # a gap without a default: keep the keyword spelling
+    return f(*pos, **extra_kw)
 
 
 class PositionalProxy:
-    """module-like object whose functions are called through positional_call"""
+    """module-like object whose (documented) functions are called through positional_call"""
 
-    def __init__(self, mod: Any):
-        self._mod = mod
+    def __init__(self, mod: Any, orders: Dict[str, List[str]]):
+        self._mod, self._orders = mod, orders
 
     def __getattr__(self, name: str) -> Any:
         f = getattr(self._mod, name)
-        if callable(f) and not isinstance(f, type):
-            return lambda *a, **k: positional_call(f, a, k)
+        if name in self._orders:
+            return lambda *a, **k: positional_call(f, a, k, self._orders[name])
         return f
